@@ -445,6 +445,47 @@ pub fn run(id: &str) {
             let r = std::thread::Builder::new().stack_size(2 << 20).spawn(move || Covenant::from_ops(&ops).debug_execute(&[]).is_some()).unwrap().join();
             verdict(id, r.is_err(), &format!("survived={:?}", r.ok()));
         }
+        // the per-denomination input total is a plain `+`: on MAINNET, within any supply, a batch of two faucet
+        // transactions (which will be rejected later: no faucets on mainnet) and a spender of 256 of their 2^120-valued
+        // outputs overflows it while the transactions are validated - a panic with overflow checks, a wrapped total
+        // without (the passing test `overflow_coins` is #[should_panic]: it pins the panic)
+        "F26" => {
+            let at = melvm::Covenant::always_true().hash();
+            let cfg = melstf::GenesisConfig {
+                network: NetID::Mainnet,
+                init_coindata: out(at, 1_000_000, Denom::Mel),
+                stakes: Default::default(),
+                init_fee_pool: CoinValue(0),
+                init_fee_multiplier: 0,
+            };
+            let u = cfg.realize(&p.w.db);
+            let mk = |tag: u8| Transaction {
+                kind: TxKind::Faucet,
+                inputs: vec![],
+                outputs: (0..200).map(|_| out(at, 1 << 120, Denom::Mel)).collect(),
+                fee: CoinValue(0),
+                covenants: vec![],
+                data: vec![tag].into(),
+                sigs: vec![],
+            };
+            let (f1, f2) = (mk(1), mk(2));
+            let mut inputs: Vec<CoinID> = (0..200u8).map(|i| f1.output_coinid(i)).collect();
+            inputs.extend((0..56u8).map(|i| f2.output_coinid(i)));
+            let spender = Transaction {
+                kind: TxKind::Normal,
+                inputs,
+                outputs: vec![out(at, 12345, Denom::Mel)],
+                fee: CoinValue(0),
+                covenants: vec![melvm::Covenant::always_true().to_bytes()],
+                data: Default::default(),
+                sigs: vec![],
+            };
+            let batch = vec![f1, f2, spender];
+            let r = silent(|| u.clone().apply_tx_batch(&batch));
+            // control: without the spender the batch is simply rejected (faucets are not allowed on mainnet)
+            let c = silent(|| u.clone().apply_tx_batch(&batch[..2]));
+            verdict(id, r.is_err(), &format!("mainnet batch [faucet, faucet, spender of 256 outputs of 2^120] panicked={} result={:?}; the two faucets alone: {:?}", r.is_err(), r.ok().map(|x| x.is_ok()), c.ok().map(|x| x.is_ok())));
+        }
         // MEL outputs + fee = 2^128
         "F18" => {
             let (u, _) = p.base(net, 10, 0);
